@@ -68,7 +68,9 @@ class Job:
         self.loop_contracts = loop_contracts
         self.cbmc_args = list(cbmc_args)
         self.unwind = unwind
-        self.timeout = timeout
+        # a required job gets at least 15 min: a time-out is exit 2 (undecided), and the machine the checks run on may be
+        # slower or busier than the one the caps were measured on (C14 hit a 300 s cap with a 281 s job once)
+        self.timeout = timeout if optional else max(timeout, 900)
         self.mem_gb = mem_gb
         self.level = level            # 'proof' | 'bounded'
         self.functions = list(functions)   # real functions under contract in this job
